@@ -126,6 +126,7 @@ package astwalk
 //@   ensures @visit-consumes-the-flag emitted(visited) == old(emitted(visited)) + 1 && emitted(skipconsumed) == old(emitted(skipconsumed)) + 1
 
 //@ func (*typeExprWalker).walk
+//@   terminates_by recursion happens through ast.Inspect callbacks on the sub-nodes of x only: a strictly smaller part of a finite tree
 //@   prop C13 C03
 //@   nosafety
 //@   dyncalls_frame ast.Inspect runs w.walk on sub-nodes; each such run keeps the balance by this very contract
